@@ -55,11 +55,15 @@ def _check_guards(rep, impl, curve):
         if impl == "opt":
             Q, P = ("xq", "yq", Z(infQ)), ("xp", "yp", Z(infP))
         else:
-            Q, P = ("xq", "yq"), ("xp", "yp")
+            # reference: infinity is None; the two flags are decided by the path (both outcomes explored)
+            Q = None if SymBool(infQ) else ("xq", "yq")
+            P = None if SymBool(infP) else ("xp", "yp")
 
         def is_on_curve(pt, b):
-            log.append(("is_on_curve", pt is Q, b is pm.b2, pt is P, b is pm.b))
-            return SymBool(onQ if pt is Q else onP)
+            log.append(("is_on_curve", pt is Q and b is pm.b2, b is pm.b2, pt is P and b is pm.b, b is pm.b))
+            if pt is None:
+                return True          # the real is_on_curve accepts infinity
+            return SymBool(onQ if (pt is Q and b is pm.b2) else onP)
 
         def miller(*a, **k):
             log.append(("miller", a, k))
@@ -81,13 +85,16 @@ def _check_guards(rep, impl, curve):
             return
         onQ, onP, infQ, infP, log, (kind, val), Q, P = pth.value
         millers = [l for l in log if l[0] == "miller"]
+        # a finite argument must pass its curve check; for the reference modules an infinite (None) argument has nothing to check
+        okQ = onQ if impl == "opt" else z3.Or(infQ, onQ)
+        okP = onP if impl == "opt" else z3.Or(infP, onP)
         if kind == "ValueError":
             seen["raise"] += 1
-            g, m = pth.ctx.prove(z3.Or(z3.Not(onQ), z3.Not(onP)))
+            g, m = pth.ctx.prove(z3.Or(z3.Not(okQ), z3.Not(okP)))
             require(rep, g and not millers, "%s raises ValueError only when an argument is off its curve, before any Miller loop" % tag, pth.decisions, rp)
             return
-        g, m = pth.ctx.prove(z3.And(onQ, onP))
-        require(rep, g, "%s returns a value only when both arguments passed their curve check" % tag, pth.decisions, rp)
+        g, m = pth.ctx.prove(z3.And(okQ, okP))
+        require(rep, g, "%s returns a value only when both arguments passed their curve check (also when the other argument is infinity)" % tag, pth.decisions, rp)
         checks = [l for l in log if l[0] == "is_on_curve"]
         require(rep, any(c[1] and c[2] for c in checks) and any(c[3] and c[4] for c in checks), "%s checks Q against b2 and P against b" % tag, pth.decisions, rp)
         if impl == "opt":
@@ -105,8 +112,9 @@ def _check_guards(rep, impl, curve):
                 require(rep, g and not isinstance(val, str) and val == pm.FQ12.one() and not millers, "%s returns FQ12.one() exactly for an identity argument (any representative z = 0)" % tag, pth.decisions, rp)
         else:
             seen["miller"] += 1
-            a = millers[0][1]
-            require(rep, val == "MILLER" and a == (("TW", Q), ("CAST", P)), "%s = miller_loop(twist(Q), cast_point_to_fq12(P))" % tag, pth.decisions, rp)
+            a = millers[0][1] if millers else None
+            require(rep, isinstance(val, str) and val == "MILLER" and a == (("TW", Q), ("CAST", P)),
+                    "%s = miller_loop(twist(Q), cast_point_to_fq12(P)) (infinity is handled inside miller_loop)" % tag, pth.decisions, rp)
     core.explore(run, on_path=on_path)
     require(rep, seen["raise"] >= 2 and seen["miller"] >= 1, "%s: refusing and computing paths reachable %s" % (tag, seen), None, rp)
     if impl == "opt":
@@ -398,6 +406,15 @@ for _k in PAIR:
 
 # ---------------------------------------------------------------------------
 # C12
+
+def _c12_split(rep, tier):
+    rep.stub("recording model as in C05 miller_structure_*")
+    for curve in ("bn128", "bls12_381"):
+        _check_miller(rep, "opt", curve)
+
+
+obligation("C12", "split_final_exponentiation_operand", bound="both optimized modules: miller_loop(final_exponentiate=False) returns exactly the operand that the default path raises to (p^12-1)/r (incl. the BN254 Frobenius line steps); real loops on the recording model")(_c12_split)
+
 
 @obligation("C12", "bls12_381_optimized_equals_reference_trace", bound="BLS12-381: both real Miller loops on the recording model (same binary digit chain): equal formal products; numerator/denominator split")
 def c12_bls_trace(rep, tier):
